@@ -983,6 +983,16 @@ func (fx *FnExec) evalIdent(name string, env *evalEnv) (cval, error) {
 	// local variable of the function: a phi named after the source variable
 	// at a call site the name means the variable's value there: the latest definition or merge
 	// that dominates the call
+	// the hidden index of a range loop, in a loop that is no range loop any more: a maintainer rewrote
+	// `for _, x := range s` as `for i := 0; i < len(s); i++`. At the head of the range loop the hidden
+	// index is the number of finished rounds minus one, at the head of the counted loop the counter
+	// is the number of finished rounds: rangeindex means i - 1 (at the back edge as at the head)
+	if name == "rangeindex" && env.loop != nil && !loopHasRangeIndex(env.loop) {
+		if ctr := countedLoopCounter(env.loop); ctr != nil {
+			c := fx.cvalOf(fx.val(ctr))
+			return cval{S: "(- " + c.S + " 1)", Sort: "Int", T: c.T}, nil
+		}
+	}
 	if env.at != nil {
 		if v := fx.localAt(name, env.at); v != nil {
 			return fx.cvalOf(fx.val(v)), nil
@@ -1109,6 +1119,57 @@ func (fx *FnExec) localAt(name string, at *ssa.BasicBlock) ssa.Value {
 
 // localByName finds the SSA phi that carries the source variable `name`, preferring the one at the
 // given loop head.
+func loopHasRangeIndex(head *ssa.BasicBlock) bool {
+	for _, in := range head.Instrs {
+		if phi, ok := in.(*ssa.Phi); ok && phi.Comment == "rangeindex" {
+			return true
+		}
+	}
+	return false
+}
+
+// countedLoopCounter: the phi i of a loop `for i := 0; i < n; i++` (the head ends in `if i < ...`, i
+// starts at the constant 0 and every other edge brings i + 1).
+func countedLoopCounter(head *ssa.BasicBlock) *ssa.Phi {
+	if len(head.Instrs) == 0 {
+		return nil
+	}
+	iff, ok := head.Instrs[len(head.Instrs)-1].(*ssa.If)
+	if !ok {
+		return nil
+	}
+	bo, ok := iff.Cond.(*ssa.BinOp)
+	if !ok || bo.Op != token.LSS {
+		return nil
+	}
+	phi, ok := bo.X.(*ssa.Phi)
+	if !ok || phi.Block() != head {
+		return nil
+	}
+	zero, inc := false, true
+	for _, e := range phi.Edges {
+		if c, ok := e.(*ssa.Const); ok {
+			if c.Value != nil && c.Int64() == 0 {
+				zero = true
+				continue
+			}
+			return nil
+		}
+		b, ok := e.(*ssa.BinOp)
+		if !ok || b.Op != token.ADD || b.X != ssa.Value(phi) {
+			inc = false
+			continue
+		}
+		if c, ok := b.Y.(*ssa.Const); !ok || c.Value == nil || c.Int64() != 1 {
+			inc = false
+		}
+	}
+	if zero && inc {
+		return phi
+	}
+	return nil
+}
+
 func (fx *FnExec) localByName(name string, loop *ssa.BasicBlock) ssa.Value {
 	var found []ssa.Value
 	if loop != nil {
